@@ -83,7 +83,7 @@ Theorem C17_bytes : forall T bsz is_byte alloc ti est bs, valid_T T -> let c := 
   Forall (fun i => alloc < i /\ i <= a_alloc a) (slab_ids (a_root a)) /\ NoDup (slab_ids (a_root a)).
 Proof. exact c17_bytes. Qed.
 
-(* PARTIAL.  Full statement wanted: for every operation o, the slabs of the source are unchanged by
+(* SUPERSEDED by props/C17_independent.v (full independence statement); kept for reference.  Full statement wanted: for every operation o, the slabs of the source are unchanged by
    [a_step] on the result and vice versa (and by disposal).  Proved: the build itself is framed
    (C17_array_batch_frame, C17_batch_leaves_others) and, here, the identifier sets are
    disjoint (the result's identifiers are all above the allocator value at the time of the call, every
